@@ -53,6 +53,14 @@ func VerifC44Collect() {
 	ts := meta.VerifObj(0, 5, object.TypeTombstone, 15, 0)
 	ts.AssociateDeleted(meta.VerifOID(2))
 	c44put(db, ts)
+	// a tombstone broadcast to this shard for an object another shard stores:
+	// its garbage mark (smallest ID, listed first) names nothing stored here
+	elsewhere := vrt.Bool("tombstoneForAnObjectStoredElsewhere")
+	if elsewhere {
+		ts0 := meta.VerifObj(0, 7, object.TypeTombstone, 15, 0)
+		ts0.AssociateDeleted(meta.VerifOID(0))
+		c44put(db, ts0)
+	}
 	_, err := db.MarkGarbage(meta.VerifCID(0), []oid.ID{meta.VerifOID(1)}, meta.GarbageMarkDefault)
 	vrt.Assert(err == nil, "mark")
 	_, err = db.InhumeContainer(meta.VerifCID(1))
@@ -79,6 +87,15 @@ func VerifC44Collect() {
 	for i := 0; i < passes; i++ {
 		s.removeGarbage()
 	}
+	if elsewhere {
+		gb, gerr := db.GetGarbage(10)
+		vrt.Assert(gerr == nil, "garbage listing works")
+		for _, b := range gb {
+			for _, id := range b.Objects {
+				vrt.Assert(id != meta.VerifOID(0), "a garbage mark for an object that is not stored here does not stay in the garbage list")
+			}
+		}
+	}
 	vrt.Assert(gone(0, 1), "a garbage-marked object is eventually deleted from metadata and blob storage")
 	vrt.Assert(gone(0, 2), "a tombstoned object is eventually deleted")
 	vrt.Assert(gone(0, 3), "an expired unlocked object is eventually deleted")
@@ -100,6 +117,9 @@ func VerifC44Collect() {
 		s.removeGarbage()
 	}
 	vrt.Assert(gone(0, 5), "a tombstone is removed some time after it expired")
+	if elsewhere {
+		vrt.Assert(gone(0, 7), "a tombstone is removed some time after it expired")
+	}
 	vrt.Assert(gone(0, 6), "a lock is removed some time after it expired")
 	vrt.Assert(gone(0, 4), "once its lock expired, the expired object is collected")
 	vrt.Reach("end")
